@@ -133,9 +133,11 @@ CLAIMED["C18"] = ("property-based fault injection (Hypothesis): generated contex
                   "retry, follow-up workload, empty resource ledger after ABT_finalize",
                   "fault_enumeration",
                   "For each generated case (environment x 1-3 streams x caller kind x list of (routine, arguments, k)) "
-                  "every call is made with allocation event k failing; k is drawn from 1..16, which covers every "
-                  "event index observed for all routines except stream creation beyond 16; the thorough tier draws "
-                  "~190k calls. Checked per call: no crash (ASan/UBSan builds, with and without memory pools), "
+                  "every call is made with allocation event k failing; k is drawn from 1..16 (about 90 %) "
+                  "and from 17..260 (ABT_init: up to 500): most routines perform fewer than 16 allocation events, "
+                  "stream creation and ABT_init up to a few hundred under small-page memory settings (the evidence "
+                  "file reports the maximum per routine as n:<routine>), so high indices are sampled sparsely; the "
+                  "thorough tier draws ~190k cases with ~1M calls. Checked per call: no crash (ASan/UBSan builds, with and without memory pools), "
                   "documented handle value, unchanged getters of every pre-existing object, retry succeeds, result "
                   "usable; per case: ledger of mallocs, mappings and pthread objects empty after finalize and after "
                   "a failed ABT_init. Single failures only (no persistent out-of-memory), failures on the calling "
